@@ -35,7 +35,7 @@ def gen_runs(tier, seed):
     if tier == "quick":
         # all of G(2,1..2) with a small decoration set, a seeded slice of G(3,3), thirds
         runs.append(dict(V=2, EMIN=1, EMAX=2, WSET={2, 3, 4, 6}, WD=4, DSET={1, 2, 3, 4}, EXTV=3, STRIDE=1, OFFSET=0))
-        ws = set(rnd.sample([2, 3, 4, 6, 8], 3))
+        ws = set(rnd.sample([2, 3, 4, 6], 2)) | {8}      # always an integer weight >= 2
         ds = set(rnd.sample([1, 2, 3, 4, 5, 6], 2))
         stride = 97
         runs.append(dict(V=3, EMIN=3, EMAX=3, WSET=ws, WD=4, DSET=ds, EXTV=4, STRIDE=stride, OFFSET=rnd.randrange(stride)))
@@ -43,6 +43,10 @@ def gen_runs(tier, seed):
                          OFFSET=rnd.randrange(41)))
         runs.append(dict(V=3, EMIN=4, EMAX=4, WSET={4, 6}, WD=4, DSET={rnd.choice([1, 2, 3])}, EXTV=3, STRIDE=997,
                          OFFSET=rnd.randrange(997)))
+        # four vertex labels: forests, two disjoint components, externals spread over components
+        runs.append(dict(V=4, EMIN=2, EMAX=2, WSET={2, 3, 4, 6}, WD=4, DSET={1, 2, 3, 4}, EXTV=4, STRIDE=41, OFFSET=rnd.randrange(41)))
+        runs.append(dict(V=4, EMIN=3, EMAX=3, WSET=set(rnd.sample([2, 3, 4, 6], 2)), WD=4, DSET={rnd.choice([1, 2, 3, 4])}, EXTV=4,
+                         STRIDE=101, OFFSET=rnd.randrange(101)))
     else:
         runs.append(dict(V=3, EMIN=1, EMAX=2, WSET={2, 3, 4, 6, 8}, WD=4, DSET={1, 2, 3, 4, 5, 6}, EXTV=4, STRIDE=1, OFFSET=0))
         stride = 23
@@ -52,6 +56,8 @@ def gen_runs(tier, seed):
                          OFFSET=rnd.randrange(29)))
         runs.append(dict(V=3, EMIN=4, EMAX=4, WSET={3, 4, 6}, WD=4, DSET={1, 2, 3, 4}, EXTV=3, STRIDE=499,
                          OFFSET=rnd.randrange(499)))
+        runs.append(dict(V=4, EMIN=2, EMAX=3, WSET={2, 3, 4, 6, 8}, WD=4, DSET={1, 2, 3, 4}, EXTV=4, STRIDE=199, OFFSET=rnd.randrange(199)))
+        runs.append(dict(V=4, EMIN=4, EMAX=4, WSET={2, 4, 6}, WD=4, DSET={1, 3}, EXTV=4, STRIDE=4001, OFFSET=rnd.randrange(4001)))
         runs.append(dict(V=4, EMIN=5, EMAX=5, WSET={4, 6}, WD=4, DSET={1, 2}, EXTV=2, STRIDE=32003,
                          OFFSET=rnd.randrange(32003)))
     return runs
